@@ -51,7 +51,7 @@ ENTRIES = [
     ('col_own_u8', col(own('u8'))),
     ('col_str', col(STR)),
     ('col_mir_f64', col(mir('f64'))),
-    ('col_sl_str', col(sl(STR))),
+    ('col_con_own_u64', col(con(own('u64'), 'vec'))),
     ('con_str_iopt', con(STR, 'iopt')),
     ('con_str_vec', con(STR, 'vec')),
     ('con_str_ilist', con(STR, 'ilist')),
@@ -107,7 +107,7 @@ def contains(e, kind):
 
 def caps(e):
     c = {'clone': True, 'serde': True, 'heap': True, 'reserve_regions': True,
-         'reserve_items': not contains(e, 'col'), 'pushitem': True}
+         'reserve_items': not contains(e, 'col') and not contains(e, 'cols'), 'pushitem': True}
     return c
 
 def is_known_bad(e):
@@ -141,6 +141,50 @@ def rust_type(e):
     if k == 'cols': return f'ColumnsRegion<{rust_type(e[1])}, {rust_ic(e[2], "usize")}>'
     raise ValueError(e)
 
+def item_kind(e):
+    """kind of Region::ReadItem, for the PartialEq bound of CollapseSequence"""
+    k = e[0]
+    if k == 'own': return 'slice'
+    if k in ('str', 'strof'): return 'str'
+    if k == 'mir': return 'val'
+    if k == 'vecr': return 'ref'
+    if k in ('col', 'con'): return item_kind(e[1])
+    return k
+
+def ref_ok(e):
+    """does the region implement Push<&Owned> ?"""
+    k = e[0]
+    if k in ('own', 'str', 'mir', 'vecr'): return True
+    if k == 'strof': return True
+    if k in ('sl', 'cols', 'opt', 'con'): return ref_ok(e[1])
+    if k in ('res', 'tup2'): return ref_ok(e[1]) and ref_ok(e[2])
+    if k == 'col': return ref_ok(e[1]) and item_kind(e[1]) in ('slice', 'str')
+    raise ValueError(e)
+
+def cmp_ok(e):
+    """is the read item Ord (slices of comparable things, strings, integers)?"""
+    k = e[0]
+    if k == 'own': return e[1] not in ('f64',)
+    if k == 'mir': return e[1] not in ('f64',)
+    if k == 'vecr': return e[1] not in ('f64',)
+    if k in ('str', 'strof'): return True
+    if k == 'sl': return cmp_ok(e[1])
+    if k == 'cols': return False
+    if k == 'opt': return cmp_ok(e[1])
+    if k in ('res', 'tup2'): return cmp_ok(e[1]) and cmp_ok(e[2])
+    if k in ('col', 'con'): return cmp_ok(e[1])
+    raise ValueError(e)
+
+def forms(e):
+    """the input forms offered for an entry: list of (name, rust expression over `self`, `v: &Owned`)"""
+    fs = [('borrowed_item', 'push_borrowed(self, v)')]
+    if ref_ok(e): fs.append(('ref', 'Push::push(self, v)'))
+    fs += extra_forms(e)
+    return fs
+
+def extra_forms(e):
+    return []
+
 def gen_rust():
     out = ['// GENERATED by tools/catalogue.py -- do not edit', '#![allow(unused_imports)]',
            'use crate::run::*;', 'use crate::wire::*;',
@@ -151,15 +195,30 @@ def gen_rust():
     for name, e in ENTRIES:
         ty = rust_type(e)
         c = caps(e)
-        if ty not in seen:
-            seen[ty] = name
-            out.append(f'impl Caps for {ty} {{')
-            if c['clone']:
-                out.append('    fn try_clone(&self) -> Option<Self> { Some(self.clone()) }')
-                out.append('    fn try_clone_from(&mut self, src: &Self) -> bool { self.clone_from(src); true }')
-            if c['reserve_items']:
-                out.append('    fn try_reserve_items(&mut self, items: &[Self::Owned]) -> bool { self.reserve_items(items.iter()); true }')
-            out.append('}')
+        if ty in seen: continue
+        seen[ty] = name
+        fs = forms(e)
+        out.append(f'impl Caps for {ty} {{')
+        out.append(f'    fn nforms() -> u32 {{ {len(fs)} }}')
+        out.append('    fn push_form(&mut self, v: &Self::Owned, form: u32) -> Self::Index {')
+        out.append('        match form {')
+        for i, (fname, expr) in enumerate(fs):
+            pat = '_' if i == 0 else str(i)
+            if i > 0: out.append(f'            {pat} => {expr}, // {fname}')
+        out.append(f'            _ => {fs[0][1]}, // {fs[0][0]}')
+        out.append('        }')
+        out.append('    }')
+        out.append('    fn push_item(&mut self, src: &Self, i: Self::Index, owned: bool) -> Self::Index { push_item_generic(self, src, i, owned) }')
+        if c['clone']:
+            out.append('    fn try_clone(&self) -> Option<Self> { Some(self.clone()) }')
+            out.append('    fn try_clone_from(&mut self, src: &Self) -> bool { self.clone_from(src); true }')
+        if c['reserve_items'] and ref_ok(e):
+            out.append('    fn try_reserve_items(&mut self, items: &[Self::Owned]) -> bool { self.reserve_items(items.iter()); true }')
+        if c['serde']:
+            out.append('    fn try_serde(&self) -> Option<Self> { Some(serde_generic(self)) }')
+        if cmp_ok(e):
+            out.append('    fn try_cmp(&self, i: Self::Index, a: bool, other: &Self, j: Self::Index, b: bool) -> Option<U> { Some(cmp_generic(self, i, a, other, j, b)) }')
+        out.append('}')
     out.append('')
     out.append('pub fn dispatch(name: &str, ops: &[Op]) -> Option<Vec<Vec<Obs>>> {')
     out.append('    Some(match name {')
